@@ -7,7 +7,8 @@ TRec(T) == [tsel |-> T, tkeep |-> TKeep(T), expect |-> TargetExpect(T)]
 ASSUME JsonSerialize(IOEnv.OUT,
          [geom |-> [sx |-> SX, sy |-> SY, tx |-> TX, ty |-> TY, nmaxi |-> NMaxi, lagw |-> LagW, nlag |-> NLag,
                     gnx |-> GNX, gdx2 |-> GDX2, gdy2 |-> GDY2, cgnx |-> CGNX, cgny |-> CGNY],
-          targets |-> SetToSeq({TRec(T) : T \in TargetPatterns})])
+          targets |-> SetToSeq({TRec(T) : T \in TargetPatterns}),
+          target_ops |-> TargetOps])
 VARIABLE x
 Spec == x = 0 /\ [][UNCHANGED x]_x
 =============================================================================
